@@ -2,6 +2,6 @@
    refines (the driver prints both, so that the refinement theorem is also exercised on every
    generated case).  ExtrOcamlBasic only. *)
 From Coq Require Import Extraction ExtrOcamlBasic.
-From NV Require Import Merge.Algebra MergeMech.OrdMap MergeMech.Model.
+From NV Require Import Merge.Algebra MergeMech.OrdMap MergeMech.Model MergeMech.Abs.
 Extraction "mergemech_model.ml" x_melab x_whnf x_export_json x_export_ordered x_full_ordered
-  x_record_fields x_record_values x_record_to_array elab export wf.
+  x_record_fields x_record_values x_record_to_array mwfb abs elab export wf.
